@@ -93,7 +93,15 @@ func call(dead *atomic.Bool, f func()) (completed bool) {
 	done := make(chan bool, 1)
 	go func() {
 		ok := false
-		defer func() { done <- ok }()
+		defer func() {
+			// Pebble panics on a failed WAL write (commitWrite): like Logger.Fatalf, that is the
+			// store dying of an I/O error; the filesystem is then treated as after a crash
+			if p := recover(); p != nil {
+				dead.Store(true)
+				ok = false
+			}
+			done <- ok
+		}()
 		f()
 		ok = true
 	}()
@@ -193,12 +201,33 @@ func runFault(u Univ, cfg Config, mode string, seed uint64, steps int, path stri
 			"vallowed": [][]int{}, "fmv": int(r.DB.FormatMajorVersion()), "fmvlo": 0, "fmvhi": 999})
 		nv := g.nv
 		g = NewGen(r, prof, seed+uint64(g.nv))
+		g.unknownHistory()
 		g.nv = nv
 		winLen = 0
 		return true
 	}
+	// probe: what a crash right now would recover (nothing unsynced survives / everything survives)
+	probe := func(at string) {
+		for _, keepAll := range []bool{false, true} {
+			clone := mem.CrashCloneWith(func(string, bool, int) bool { return keepAll })
+			r2 := NewRunner(u, cfg, clone, "db", t)
+			ev := Ev{"op": "crashprobe", "ok": false, "state": Ev{"pts": []any{}, "rks": []any{}}, "pend": []Ev{}, "dur": false, "hasfiles": false,
+				"files": []int{}, "vallowed": [][]int{}, "fmv": 0, "fmvlo": 0, "fmvhi": 999, "at": at, "choice": fmt.Sprint(keepAll), "unsynced": 1}
+			if err := r2.Open(); err != nil {
+				ev["err"] = err.Error()
+			} else if st, derr := DumpState(r2); derr != nil {
+				ev["err"] = derr.Error()
+				r2.DB.Close()
+			} else {
+				ev["ok"], ev["state"] = true, st
+				r2.DB.Close()
+			}
+			t.Emit(ev)
+		}
+	}
 	for i := 0; i < steps && r.Fatal == nil; i++ {
 		x := rng.IntN(100)
+		nBefore := fc.n
 		fc.mu.Lock()
 		fc.budget = 1 + rng.IntN(3)
 		fc.mu.Unlock()
@@ -260,6 +289,12 @@ func runFault(u Univ, cfg Config, mode string, seed uint64, steps int, path stri
 		fc.on.Store(mode == "read")
 		reads("fault")
 		fc.on.Store(false)
+		if mode == "fatal" && fc.n > nBefore {
+			// a WAL/MANIFEST fault was injected and the store carried on: whatever it acknowledged
+			// since must already be recoverable
+			setPend(r, nil)
+			probe("after a survived fault")
+		}
 		if mode == "read" || rng.IntN(3) == 0 {
 			// with the faults off everything must read correctly (a background failure must not corrupt the LSM)
 			pts, rks, serr := r.scan(0)
@@ -341,13 +376,16 @@ func TestFault(t *testing.T) {
 	scripts := envInt("VERIF_SCRIPTS", 9)
 	steps := envInt("VERIF_STEPS", 40)
 	cfgs := crashConfigs()
-	cfgNames := []string{"crash1", "crash2", "crashvs"}
+	cfgNames := []string{"crash1", "crash2", "crashvs", "crashbig"}
 	modes := []string{"read", "bg", "fatal"}
 	events, faults := 0, 0
 	by := map[string]int{}
 	for i := 0; i < scripts; i++ {
 		mode := modes[i%len(modes)]
 		cn := cfgNames[(i/len(modes))%len(cfgNames)]
+		if mode == "fatal" && (i/len(modes))%2 == 0 {
+			cn = "crashbig" // WAL faults matter most where records span several blocks
+		}
 		path := filepath.Join(out, fmt.Sprintf("F-%s-%d-%04d-%s.ndjson", mode, seed, i, cn))
 		ne, nf, b, ferr := runFault(u, cfgs[cn], mode, seed*977+uint64(i), steps, path)
 		events += ne
